@@ -605,7 +605,7 @@ class PolygonLikeMixin(BaseShapeProtocol, ABC):
             float
         """
 
-    @cached_property
+    @property
     def volume(self) -> float:
         """
         The volume of the shape, in meters squared seconds.
